@@ -44,7 +44,11 @@ Fam == ( 1 :> [kind |-> "E", shape |-> <<2>>,    rank |-> 0, cplx |-> FALSE, tTR
       @@ 10 :> [kind |-> "D", sub |-> [x |-> 1, y |-> 6], voids |-> <<{"y"}, {}>>]
       @@ 11 :> [kind |-> "D", sub |-> [x |-> 3, y |-> 3], voids |-> <<{"x"}, {"y"}>>]
          (* the two initial objects hold the same number of k-points in differently split data_list *)
-      @@ 12 :> [kind |-> "K", nk |-> 2, nb |-> 1, rank |-> 0, cplx |-> FALSE, tTR |-> T_ident,    tInv |-> T_ident, split |-> <<<<1, 1>>, <<2>>>>] )
+      @@ 12 :> [kind |-> "K", nk |-> 2, nb |-> 1, rank |-> 0, cplx |-> FALSE, tTR |-> T_ident,    tInv |-> T_ident, split |-> <<<<1, 1>>, <<2>>>>]
+         (* scalars that are NOT invariant: a pseudo-scalar odd under time reversal, a complex scalar conjugated by time reversal
+            (for rank 0 the point operation does nothing but apply tTR / tInv: no rotation allocates a new array) *)
+      @@ 13 :> [kind |-> "E", shape |-> <<2>>,    rank |-> 0, cplx |-> FALSE, tTR |-> T_odd,      tInv |-> T_odd]
+      @@ 14 :> [kind |-> "K", nk |-> 2, nb |-> 1, rank |-> 0, cplx |-> TRUE,  tTR |-> T_conj,     tInv |-> T_odd] )
 
 (* integer data patterns: pattern 1 is even (so that / 2 applies), patterns >= 4 are unit arrays *)
 PatEntry(n, p, len, cplx) ==
